@@ -121,6 +121,10 @@ def cases(tier):
         for (_na, a, _x), (_nb, b, _y), (_nc, c, _z) in itertools.product(sh, sh, sh):
             for side in (0, 1):
                 out.append(dict(route='shared', c1=c1, c2=c2, a=a, b=b, c=c, side=side))
+    # the public helpers gradient() / deriv() / num_deriv() with the caller's step
+    for fname in ('py_plain', 'py_deriv', 'py_both', 'morse', 'buck', 'table'):
+        for h in (None, 1e-3, 1e-5, 1e-8):
+            out.append(dict(route='util', f=fname, h=h))
     # a power with a constant exponent >= 1 (>= 2 for the curvature) is differentiable where its base is exactly zero
     for base in ('poly_root', 'root*morse', 'root^2'):
         for e in (1, 2, 3, 4, 2.0, 2.5, 3.5, 1.0, 1.5):
@@ -415,7 +419,49 @@ def run_pow_zero(case):
     return dict(outcome='ok:pow_zero' if not viol else 'violation', nontrivial=True, evals=n, violations=viol)
 
 
+def run_util(case):
+    import atsim.potentials as ap
+    L = dict((n, it) for n, it, _l in leaves())
+    it = L[case['f']]
+    f = R.api_item(it)
+    lvl = level(it)
+    h = case['h']
+    kw = {} if h is None else {'h': h}
+    hh = 1e-6 if h is None else h
+    g = ap.gradient(f, **kw)
+    viol, n = [], 0
+    env = M.env()
+
+    def V(sig, msg):
+        viol.append(dict(sig=sig, msg='%s, h=%r: %s' % (case['f'], h, msg), detail={}))
+    if hasattr(g, 'deriv') != (lvl >= 2):
+        V('gradient-deriv-offer', 'gradient(f) %s .deriv although f %s .deriv2' % ('offers' if hasattr(g, 'deriv') else 'does not offer', 'offers' if lvl >= 2 else 'does not offer'))
+    for r in (0.7, 1.3, 2.9):
+        j = X.ev_item(it, r, env)
+        cd = (f(r + hh / 2.0) - f(r - hh / 2.0)) / ((r + hh / 2.0) - (r - hh / 2.0))        # the documented central difference with the caller's step
+        want = j.d1 if lvl >= 1 else cd
+        tol = 1e-9 * (abs(j.d1) + 1.0) if lvl >= 1 else 8 * M.EPS * (abs(j.v) + 1.0) / hh
+        for name, got in (('gradient(f%s)(r)' % ('' if h is None else ', h'), g(r)), ('deriv(r, f%s)' % ('' if h is None else ', h'), ap.deriv(r, f, **kw))):
+            n += 1
+            if not abs(got - want) <= tol:
+                V('util-derivative', '%s at r=%r = %r, expected %r (%s)' % (name, r, got, want, 'analytic .deriv' if lvl >= 1 else 'central difference with step %r' % hh))
+                break
+        n += 1
+        got = ap.num_deriv(r, f, **kw)
+        if not abs(got - cd) <= 8 * M.EPS * (abs(j.v) + 1.0) / hh:
+            V('util-num_deriv', 'num_deriv(r, f%s) at r=%r = %r, central difference with step %r is %r' % ('' if h is None else ', h', r, got, hh, cd))
+        if lvl >= 2 and hasattr(g, 'deriv'):
+            n += 1
+            if not abs(g.deriv(r) - j.d2) <= 1e-9 * (abs(j.d2) + 1.0):
+                V('gradient-deriv-value', 'gradient(f).deriv(%r) = %r, f.deriv2 gives %r' % (r, g.deriv(r), j.d2))
+        if viol:
+            break
+    return dict(outcome='ok:util' if not viol else 'violation', nontrivial=True, evals=n, violations=viol)
+
+
 def run_case(case):
+    if case['route'] == 'util':
+        return run_util(case)
     if case['route'] == 'pow_zero':
         return run_pow_zero(case)
     if case['route'] == 'shared':
